@@ -51,6 +51,10 @@ THEOREMS = {
         "Shroud.Interop.proto_iface_length",
         "Shroud.Interop.proto_iface_pointwise",
         "Shroud.Interop.name_count",
+        "Shroud.Interop.callback_interop",
+        "Shroud.Interop.callback_length",
+        "Shroud.Interop.callback_result_interop",
+        "Shroud.Interop.callback_bindc_only_not_interop",
         "Shroud.Interop.value_on_pointer_not_interop",
         "Shroud.Interop.cfi_without_descriptor_not_interop",
         "Shroud.Interop.lookup_paths_agree_c",
@@ -261,7 +265,7 @@ def encode_item(ccall, fcall, env):
     scb = cbase_codes(tm.c_type, env) or cb
     sfb = fbase_codes(tm.f_c_type, env) or fb
     ptr = ast.is_array()
-    farray = (tm.base == "vector") or (ntm.base == "string") or bool(attrs["dimension"]) or \
+    farray = (tm.base == "vector") or (ntm.base == "string" and not attrs["value"]) or bool(attrs["dimension"]) or \
              (attrs["rank"] is not None and attrs["rank"] > 0) or bool(attrs["allocatable"])
     dim = (fcall or {}).get("f_c_dimension") or ""
     fcdim = 0 if dim == "" else (2 if (".." in dim or ":" in dim) else 1)
@@ -460,6 +464,11 @@ def oracle_library(ctx, res, replay, stats):
     alltypes = {}
     for fn, (ifaces, types, params) in modules.items():
         alltypes.update(types)
+    abstract = {}
+    for fn, (ifaces, types, params) in modules.items():
+        for it in ifaces:
+            if it["bind"] is None:
+                abstract[it["fname"].lower()] = it
     for fn, (ifaces, types, params) in modules.items():
         for it in ifaces:
             if it["bind"] is None:
@@ -511,6 +520,25 @@ def oracle_library(ctx, res, replay, stats):
                     ctx.fail("c04:no-declaration:%s:%s:%d" % (lib, name, k + 1), "dummy %s of %s has no declaration" % (an, it["fname"]),
                              dict(rp, argument=an))
                     continue
+                if cp["base"][0] == "funptr" and fd["base"][0] == "procedure":
+                    # callback: the abstract interface against the C function-pointer type
+                    ai = abstract.get(fd["base"][1])
+                    if ai is None:
+                        ctx.fail("c04:callback-no-interface:%s:%s:%d" % (lib, name, k + 1),
+                                 "dummy procedure %s of %s is declared with procedure(%s) but no such abstract interface is emitted" % (
+                                     an, it["fname"], fd["base"][1]), dict(rp, argument=an))
+                    else:
+                        for pos, okc, whyc in ip.callback_interop(cp, ai, structs, alltypes):
+                            stats["callback_pairs"] = stats.get("callback_pairs", 0) + 1
+                            ctx.nontrivial(("callback", pos if isinstance(pos, str) else "arg"))
+                            if okc is None:
+                                stats["unresolved"] += 1
+                            elif not okc:
+                                ctx.fail("c04:callback:%s:%s:%s:%s" % (lib, name, an, pos),
+                                         "callback argument %s of %s (C `%s`): %s of the abstract interface %s is not interoperable "
+                                         "with the C function-pointer type: %s" % (an, name, pr["text"], "result" if pos == "result" else
+                                                                                  "argument %s" % pos, ai["fname"], whyc),
+                                         dict(rp, argument=an, callback_position=pos))
                 ok, why = ip.interop(cp, fd, structs, alltypes)
                 stats["pairs"] += 1
                 ctx.nontrivial(("pair", cp["base"][0], cp["ptr"], fd["base"][0], fd["value"], fd["shape"]))
@@ -779,6 +807,20 @@ def extra_decls(r, language, k):
             {"decl": "int meth(%s a, const std::string & s)" % t()},
             {"decl": "C04cls%d * self2()" % k}, {"decl": "static %s smeth(%s *x +intent(inout))" % (t(), t())},
             {"decl": "void take(C04cls%d & o, const C04cls%d * p)" % (k, k)}]})
+    # more than one level of indirection, every intent, plain and bufferified wrappers (dimension -> *_bufferify)
+    t2 = lambda: r.choice(["int", "double", "long", "float"])
+    d.append({"decl": "void %s(%s **a +intent(in), %s **b +intent(out), %s **c +intent(inout))" % (nm("q"), t2(), t2(), t2())})
+    d.append({"decl": "void %s(const %s *tab[%d], %s m[%d][%d])" % (nm("r"), t2(), r.randrange(2, 6), t2(), r.randrange(2, 4), r.randrange(2, 4))})
+    d.append({"decl": "void %s(const %s * const *cc +intent(in), int n)" % (nm("s"), t2())})
+    d.append({"decl": "void %s(%s **pp +intent(out)+dimension(n), int *n +intent(out))" % (nm("t"), t2())})
+    if language != "c":
+        d.append({"decl": "void %s(%s *&cur +intent(inout), %s *&cin +intent(in), int n)" % (nm("u"), t2(), t2())})
+        d.append({"decl": "void %s(%s *&arr +intent(out)+dimension(n), int n)" % (nm("v"), t2())})
+        d.append({"decl": "void %s(const %s *&arr +intent(out)+dimension(n), int n, void *&v +intent(out))" % (nm("w"), t2())})
+    # callbacks: parameter lists and results of the function-pointer type
+    d.append({"decl": "int %s(%s (*cb)(int i, %s *x, const char *s, void *p), int n)" % (nm("x"), t2(), t2())})
+    d.append({"decl": "void %s(void (*cb2)(%s **pp, char c, bool b), %s *(*cb3)(size_t n))" % (nm("y"), t2(), t2())})
+    d.append({"decl": "void %s(void *(*cb4)(%s v[4], long), int (*cb5)(void))" % (nm("z"), t2())})
     d.append({"decl": "void %s(C04pt%d *p, C04pt%d v)" % (nm("o"), k, k)})
     d.append({"decl": "C04pt%d %s(int i)" % (k, nm("p"))})
     r.shuffle(d)
@@ -798,7 +840,7 @@ def gen_libraries(r, n):
         base.options["wrap_fortran"] = True
         base.options["wrap_c"] = True
         ex = extra_decls(r, language, i)
-        base.decls = list(base.decls) + ex[: r.randrange(7, len(ex) + 1)]
+        base.decls = list(base.decls) + ex[: r.randrange(max(7, len(ex) - 5), len(ex) + 1)]
         libs.append(("gen%d-%s%s" % (i, "c" if language == "c" else "cxx", "-cfi" if opts.get("F_CFI") else ""), base))
     return libs
 
@@ -908,7 +950,8 @@ def run(ctx):
         "interoperability is decided under LP64 (gcc/gfortran x86-64); signedness is not distinguished",
         "a user-written +value on a pointer argument and a user-overridden C_prototype / F_C_arguments are outside the admitted inputs",
         "C functions of the wrapped library that are bound directly (language c) are taken to have the signature written in the YAML decl",
-        "abstract interfaces for callback arguments are not compared with the C function-pointer parameter types",
+        "abstract interfaces of callbacks: compared with the C function-pointer type by the oracle on every emitted interface; the "
+        "Lean theorem callback_interop is about the model of dump_abstract_interfaces, which has no per-call tie (oracle only)",
     ]
     stats = {"libraries": 0, "interfaces": 0, "pairs": 0, "unresolved": 0, "unresolved_names": set(), "abstract": 0,
              "struct_pairs": 0, "defines": 0, "rejected": [], "by_source": {}, "gfortran_modules": 0, "gfortran_protos": 0,
@@ -926,7 +969,9 @@ def run(ctx):
             process(ctx, "corpus%d" % k, y, obj.get("options", []), obj.get("language"), False,
                     {"yaml": obj["yaml"], "options": obj.get("options", [])}, stats, drv_lines, drv_meta, thorough)
         # ---- upstream corpus
-        names = [n for n, _y, _e in shroudrun.CORPUS] if thorough else QUICK_CORPUS
+        # the whole upstream corpus in both tiers (a Shroud run costs ~0.1 s); the tiers differ in the number of
+        # generated libraries and in the compiler cross-checks
+        names = [n for n, _y, _e in shroudrun.CORPUS]
         for n, y, extra in shroudrun.CORPUS:
             if n not in names:
                 continue
